@@ -50,11 +50,18 @@ def gen_update(rnd, kind):
     attrs = [('origin', W.origin(rnd.choice([0, 1, 2])))]
     asns = [rnd.choice([65001, 65002, 64512, 23456 if not asn4 else 4200000001]) for _ in range(rnd.randint(0, 4))]
     has_set = rnd.random() < 0.2 and bool(asns)
-    if has_set:
+    has_confed = not has_set and rnd.random() < 0.2 and bool(asns)
+    if has_confed:
+        # a leading AS_CONFED_SEQUENCE (RFC 5065), then the sequence: RFC 6793 4.2.3 keeps a leading confederation
+        # segment when it prepends the start of AS_PATH to AS4_PATH
+        w = 4 if asn4 else 2
+        confed = [rnd.choice([65100, 65101, 64999]) for _ in range(rnd.randint(1, 2))]
+        attrs.append(('as_path', W.attr(0x40, 2, bytes([3, len(confed)]) + b''.join(a.to_bytes(w, 'big') for a in confed) + bytes([2, len(asns)]) + b''.join(a.to_bytes(w, 'big') for a in asns))))
+    elif has_set:
         attrs.append(('as_path', W.attr(0x40, 2, bytes([2, len(asns)]) + b''.join(a.to_bytes(4 if asn4 else 2, 'big') for a in asns) + bytes([1, 1]) + (65009).to_bytes(4 if asn4 else 2, 'big'))))
     else:
         attrs.append(('as_path', W.as_path(asns, asn4)))
-    if not asn4 and rnd.random() < 0.5 and asns and not has_set:  # AS4_PATH consistent with AS_PATH (RFC 6793 4.2.2)
+    if not asn4 and rnd.random() < (0.8 if has_confed else 0.5) and asns and not has_set:  # AS4_PATH consistent with AS_PATH (RFC 6793 4.2.2)
         n4 = rnd.randint(0, len(asns))
         a4 = [rnd.choice([4200000001, 65002, 131072]) for _ in range(n4)]
         if a4:
